@@ -1,3 +1,4 @@
+#define _GNU_SOURCE 1
 /* native_common.c -- native side shared by replay and translation validation:
  * input stream (replay vector or seeded PRNG), assertion accounting, observation hash, main(). */
 #include <stdio.h>
@@ -8,6 +9,8 @@
 
 extern int vp_nat_tracking;
 int vp_harness_main(void);
+int vp_twice_main(void) __attribute__((weak));   /* linked for -DVP_TWICE queries only (rt/model_twice.c) */
+int vp_second_run;
 
 static uint64_t *in_vals; static size_t in_n, in_pos;
 static int use_prng; static uint64_t prng;
@@ -62,9 +65,20 @@ void vp_nat_obs(uint64_t x) { obs_hash = (obs_hash ^ x) * 1099511628211ULL; }
 /* ---- C20 support: module-level mutable state by symbol name (function-local statics of inline functions are weak, exported with -rdynamic), and
  * read-only shared objects (a page that is mprotect()ed while the library runs: a store into it faults, which is how a write that leaves the value
  * unchanged -- invisible to any comparison -- is reproduced natively) */
+#ifndef _GNU_SOURCE
+#define _GNU_SOURCE
+#endif
 #include <dlfcn.h>
 #include <sys/mman.h>
 #include <unistd.h>
+/* the end of an ABI-guarded one-time initialisation re-takes the snapshot (see rt/model_twice.c): interposed in front of libstdc++'s */
+void (*vp_nat_guard_hook)(void);
+void __cxa_guard_release(void *g) {
+  static void (*real)(void *);
+  if (!real) real = (void (*)(void *))dlsym(RTLD_NEXT, "__cxa_guard_release");
+  if (real) real(g); else *(unsigned char *)g = 1;
+  if (vp_nat_guard_hook) vp_nat_guard_hook();
+}
 static unsigned char vp_gshadow[8][4096];
 int vp_nat_globals(const char *const *names, const unsigned *sizes, int n, int mode) {
   int ok = 1;
@@ -90,7 +104,7 @@ int main(int argc, char **argv) {
     fclose(f);
   }
   vp_nat_tracking = 1;
-  vp_harness_main();
+  if (vp_twice_main) vp_twice_main(); else vp_harness_main();
   finish(n_fail ? 1 : 0);
   return 0;
 }
